@@ -460,7 +460,7 @@ def run(ctx):
                                "POSIX rename is atomic with respect to process crashes (assumed; power-loss durability is out of scope: mlr does not fsync)"]
     ctx.assumptions = ["os.CreateTemp returns a name that does not exist", "a crash is a process kill; the kernel completes or does not start each system call"]
     forbidden_gate(ctx, ["Base", "C19"])
-    ok, why = check_props(ctx, "C19/Props.v", ["C19/Harness.vo", "C19/Proofs.vo", "C19/ProofsRun.vo"])
+    ok, why = check_props(ctx, "C19/Props.v", ["C19/Harness.vo", "C19/Proofs.vo", "C19/ProofsRun.vo", "C19/Refine.vo"])
     terms, meta, tterms, tmeta = [], [], [], []
     S = make_scenarios(ctx)
     nviol = 0
